@@ -32,7 +32,8 @@ ASSUMPTIONS = [
     'known finding F7 (continue inside while skips the condition): programs in that class are compared with the defect-aware reference',
 ]
 
-MAX_STATEMENTS = 20000
+MAX_STATEMENTS = 200000     # the implementation's budget; the reference stops at REF_FUEL ticks (statements + iterations), at most ~1/5 of the lowered count
+REF_FUEL = 10000
 GLOBAL_POOL = [None, True, False, 0.0, 2.0, 1, 3.0, -1.5, '', 'q', 'ab', [], [1.0, 'a'], [3.0, 2.0, 1.0], {}, {'k': 1.0},
                datetime.datetime(2020, 1, 2, 3, 4, 5), datetime.date(2021, 6, 7), gv.host_fn_b, gv.REGEXES[0], [[], [0.0]], 1e15, 'null']
 TYPE_LETTER = {'null': 'z', 'boolean': 'b', 'number': 'n', 'string': 's', 'datetime': 'd', 'array': 'a', 'object': 'o', 'function': 'f',
@@ -85,6 +86,18 @@ def compare(src, prog, globals0, index_names, pattern, known):
     wc = gp.has_while_continue(prog)
     detail = {'kind': 'program', 'source': src, 'globals': enc(globals0), 'pattern': pattern, 'while_continue': wc,
               'index_names': sorted(index_names)}
+    # reference first: a program whose values explode (doubling in nested loops) is discarded before the implementation runs it
+    rlog = []
+    rg = copy.deepcopy(globals0)
+    defect = wc and known.get('F7', False)
+    ref = interp.Ref(rg, rlog, host={'probe': make_probe(rlog), 'cc': make_cc(rlog, pattern or [True])}, while_continue_defect=defect,
+                     fuel=REF_FUEL)
+    try:
+        expected = ('ok', ref.run_program(prog))
+    except interp.Indeterminate as e:
+        return None, str(e), wc
+    except interp.RefRuntimeError as e:
+        expected = ('runtime-error', e.kind)
     # implementation
     ilog = []
     ig = copy.deepcopy(globals0)
@@ -97,18 +110,6 @@ def compare(src, prog, globals0, index_names, pattern, known):
             list.append(self, ('log', m) if isinstance(m, str) else m)
     sink = L()
     out = impl.run_model(model, ig, None, MAX_STATEMENTS, logFn=lambda m: ilog.append(('log', m)))
-    # reference
-    rlog = []
-    rg = copy.deepcopy(globals0)
-    defect = wc and known.get('F7', False)
-    ref = interp.Ref(rg, rlog, host={'probe': make_probe(rlog), 'cc': make_cc(rlog, pattern or [True])}, while_continue_defect=defect,
-                     fuel=MAX_STATEMENTS // 2)
-    try:
-        expected = ('ok', ref.run_program(prog))
-    except interp.Indeterminate as e:
-        return None, str(e), wc
-    except interp.RefRuntimeError as e:
-        expected = ('runtime-error', e.kind)
     if out.kind == 'ok':
         got = ('ok', out.value)
     elif out.kind == 'runtime-error':
@@ -142,17 +143,43 @@ def _short(v):
 
 def gen_globals(rnd):
     g = {'g%d' % i: copy.deepcopy(rnd.choice(GLOBAL_POOL)) for i in range(4)}
-    g['garr'] = [[], [1.0], [1.0, 2.0], [1.0, 2.0, 3.0], ['a', None, 2.0, True]][rnd.randint(0, 4)]
+    g['garr'] = [[], [1.0], [1.0, 2.0], [1.0, 2.0, 3.0], ['a', None, 2.0, True], [float(i) for i in range(11)]][rnd.randint(0, 5)]
     return g
 
 
 def gen_program(rnd, size):
-    globals0 = gen_globals(rnd)
-    types = {k: TYPE_LETTER[ref_type(v)] for k, v in globals0.items()}
-    pg = gp.ProgGen(rnd, ExprGen, max_depth=min(5, 1 + size), max_functions=3, global_types=types)
-    prog = pg.program(size)
+    """A generated program. Programs whose values explode (a string or array doubled in nested loops reaches gigabytes within a few
+    hundred statements) are regenerated: resource exhaustion of the host is outside the properties."""
+    for _ in range(30):
+        globals0 = gen_globals(rnd)
+        types = {k: TYPE_LETTER[ref_type(v)] for k, v in globals0.items()}
+        pg = gp.ProgGen(rnd, ExprGen, max_depth=min(5, 1 + size), max_functions=3, global_types=types)
+        prog = pg.program(size)
+        if not explodes(prog, globals0):
+            break
     src = '\n'.join(gp.print_program(prog)) + '\n'
     return prog, src, globals0, pg
+
+
+def explodes(prog, globals0):
+    saved = interp.SIZE_LIMIT
+    interp.SIZE_LIMIT = 4096
+    try:
+        for wcd in (False, True):
+            for pattern in ([True], [True, False, True], [False, True]):
+                log = []
+                ref = interp.Ref(copy.deepcopy(globals0), log, host={'probe': make_probe(log), 'cc': make_cc(log, pattern)}, while_continue_defect=wcd,
+                                 fuel=6000)
+                try:
+                    ref.run_program(prog)
+                except interp.Indeterminate as e:
+                    if str(e).startswith('value grows'):
+                        return True
+                except Exception:  # pylint: disable=broad-except
+                    pass
+    finally:
+        interp.SIZE_LIMIT = saved
+    return False
 
 
 def nontrivial(prog, events):
